@@ -487,3 +487,128 @@ theorem fcgiStdoutStream_wire (reqId : Nat) (hr : reqId < 65536) (ds : List Byte
     exact ⟨this.2.1, this.2.2.1, this.2.2.2.1⟩
 
 end Cppcms.C03
+
+namespace Cppcms.C03
+open Cppcms
+
+/-! ### header blocks -/
+
+theorem startsCRLFCRLF_append (s rest : Bytes) (h : 4 ≤ s.length) :
+    Spec.startsCRLFCRLF (s ++ rest) = Spec.startsCRLFCRLF s := by
+  unfold Spec.startsCRLFCRLF
+  rw [List.take_append_of_le_length h]
+
+theorem startsCRLFCRLF_length (s : Bytes) (h : Spec.startsCRLFCRLF s = true) : 4 ≤ s.length := by
+  unfold Spec.startsCRLFCRLF at h
+  have := congrArg List.length (eq_of_beq h)
+  simp only [List.length_take, List.length_cons, List.length_nil] at this
+  omega
+
+theorem splitHeadAux_some_length : ∀ (s : Bytes) (acc : List UInt8) (r : Bytes × Bytes),
+    Spec.splitHeadAux s acc = some r → 4 ≤ s.length := by
+  intro s
+  induction s with
+  | nil => intro acc r h; simp [Spec.splitHeadAux] at h
+  | cons c s ih =>
+    intro acc r h
+    rw [Spec.splitHeadAux] at h
+    by_cases hs : Spec.startsCRLFCRLF (c :: s) = true
+    · exact startsCRLFCRLF_length _ hs
+    · simp only [hs, Bool.false_eq_true, if_false] at h
+      have := ih _ _ h
+      simp only [List.length_cons]; omega
+
+/-- a header block found in `s` is found unchanged when more bytes follow -/
+theorem splitHeadAux_append : ∀ (s : Bytes) (acc : List UInt8) (hd r rest : Bytes),
+    Spec.splitHeadAux s acc = some (hd, r) → Spec.splitHeadAux (s ++ rest) acc = some (hd, r ++ rest) := by
+  intro s
+  induction s with
+  | nil => intro acc hd r rest h; simp [Spec.splitHeadAux] at h
+  | cons c s ih =>
+    intro acc hd r rest h
+    rw [Spec.splitHeadAux] at h
+    rw [List.cons_append, Spec.splitHeadAux]
+    by_cases hs : Spec.startsCRLFCRLF (c :: s) = true
+    · have h4 := startsCRLFCRLF_length _ hs
+      have : Spec.startsCRLFCRLF (c :: (s ++ rest)) = true := by
+        rw [← List.cons_append, startsCRLFCRLF_append _ _ h4]; exact hs
+      simp only [hs, if_true, Option.some.injEq, Prod.mk.injEq] at h
+      simp only [this, if_true, Option.some.injEq, Prod.mk.injEq]
+      refine ⟨h.1, ?_⟩
+      rw [← h.2]
+      simp only [List.length_cons] at h4
+      rw [List.drop_append_of_le_length (by omega)]
+    · simp only [hs, Bool.false_eq_true, if_false] at h
+      have h4 := splitHeadAux_some_length _ _ _ h
+      have : Spec.startsCRLFCRLF (c :: (s ++ rest)) = false := by
+        rw [← List.cons_append, startsCRLFCRLF_append _ _ (by simp only [List.length_cons]; omega)]
+        simpa using hs
+      simp only [this, Bool.false_eq_true, if_false]
+      exact ih _ _ _ _ h
+
+/-- `H` is exactly one header block: its first CRLFCRLF is its end -/
+def HeadOk (H : Bytes) : Prop := Spec.splitHead H = some (H, [])
+
+theorem splitHead_append (H rest : Bytes) (h : HeadOk H) : Spec.splitHead (H ++ rest) = some (H, rest) := by
+  unfold HeadOk Spec.splitHead at *
+  have := splitHeadAux_append H [] H [] rest h
+  simpa using this
+
+/-! ### SCGI / CGI -/
+
+/-- all output of a sequence of `format_output` calls -/
+def scgiRun : ScgiSt → List Bytes → Bytes
+  | _, [] => []
+  | st, w :: ws => (scgiFormat st w).2 ++ scgiRun (scgiFormat st w).1 ws
+
+theorem scgiRun_written : ∀ (ws : List Bytes) (st : ScgiSt), st.headersWritten = true → scgiRun st ws = ws.flatten := by
+  intro ws
+  induction ws with
+  | nil => intro st _; rfl
+  | cons w ws ih =>
+    intro st h
+    simp only [scgiRun, scgiFormat, h, if_true, List.flatten_cons]
+    rw [ih st h]
+
+theorem scgiRun_fresh (H : Bytes) (w : Bytes) (ws : List Bytes) :
+    scgiRun { headers := H, headersWritten := false } (w :: ws) = H ++ (w :: ws).flatten := by
+  simp only [scgiRun, scgiFormat, Bool.false_eq_true, if_false, List.flatten_cons]
+  rw [scgiRun_written ws _ rfl, List.append_assoc]
+
+/-! ### FastCGI state machine -/
+
+/-- all output of a sequence of `format_output(input, completed)` calls -/
+def fcgiRun : FcgiSt → List (Bytes × Bool) → Bytes
+  | _, [] => []
+  | st, (w, e) :: cs => (fcgiFormat st w e).2 ++ fcgiRun (fcgiFormat st w e).1 cs
+
+theorem fcgiRun_written : ∀ (ws : List Bytes) (last : Bytes) (st : FcgiSt), st.headersWritten = true →
+    fcgiRun st (ws.map (·, false) ++ [(last, true)]) = fcgiWire st.reqId (ws ++ [last]) := by
+  intro ws
+  induction ws with
+  | nil =>
+    intro last st h
+    simp [fcgiRun, fcgiFormat, h, fcgiWire]
+  | cons w ws ih =>
+    intro last st h
+    have hst : (fcgiFormat st w false).1.headersWritten = true := rfl
+    have hid : (fcgiFormat st w false).1.reqId = st.reqId := rfl
+    simp only [List.map_cons, List.cons_append, fcgiRun]
+    rw [ih last _ hst, hid]
+    simp [fcgiFormat, h, fcgiWire, List.append_assoc]
+
+/-- the first call carries the header block in front of its input -/
+theorem fcgiRun_fresh (reqId : Nat) (H : Bytes) (ws : List Bytes) (last : Bytes) :
+    fcgiRun { reqId := reqId, responseHeaders := H, headersWritten := false } (ws.map (·, false) ++ [(last, true)]) =
+      match ws with
+      | [] => fcgiWire reqId [H ++ last]
+      | w :: ws' => fcgiWire reqId ((H ++ w) :: ws' ++ [last]) := by
+  cases ws with
+  | nil => simp [fcgiRun, fcgiFormat, fcgiWire]
+  | cons w ws' =>
+    simp only [List.map_cons, List.cons_append, fcgiRun]
+    have hst : (fcgiFormat { reqId := reqId, responseHeaders := H, headersWritten := false } w false).1.headersWritten = true := rfl
+    rw [fcgiRun_written ws' last _ hst]
+    simp [fcgiFormat, fcgiWire, List.append_assoc]
+
+end Cppcms.C03
